@@ -113,8 +113,20 @@ def run_case(case):
         def f(ctx):
             ctx.wait(1 * MS)
             for k, op in pre:
-                if k == key:
+                if k == key and op != "routed-ack-pending":
                     do_pre(key, op)
+            if (key, "routed-ack-pending") in pre:
+                # this node is INSIDE send() when the multicast arrives: 20 ms before the multicast it sends an acknowledged-type
+                # message towards a node that does not exist behind an existing first hop and waits (route_timeout) for a
+                # NETWORK_ACK that never comes
+                net.serve(ctx, key, max(1, delay - 20 * MS - (w.now - net.built_at)), hook)
+                lvl = N.level_of(key)
+                target = O("31") if lvl == 0 else (O("33") if lvl == 1 else O("3"))
+                obs["pending_ret"] = net.nodes[key].send(H.RF24NetworkHeader(target, 65), PRE_MSG)
+                obs["pending_t"] = (w.now, obs.get("t_mc"))
+                bad = N.listening_violations(net.nodes[key], net.radios[key])
+                if bad:
+                    obs["c07"].append((key, tuple(bad)))
             net.serve(ctx, key, max(1, delay + 80 * MS - (w.now - net.built_at)), hook)
         return f
 
@@ -158,6 +170,10 @@ def run_case(case):
     obs["flushed_unread"] = {k: r.rx_flushed_unread for k, r in net.radios.items() if r.rx_flushed_unread}
     obs["msg"] = msg
     air = [p for p in net.air() if p.start >= obs["t_mc"] and (p.is_ack or (N.parse_frame(p.payload) or {}).get("type") != BURST_TYPE)]
+    if any(op == "routed-ack-pending" for _, op in pre):
+        # the pending unicast (and its forwarding) shares the air: judged are the multicast's packets and every ACK on a LEVEL address
+        lv_addrs = {level_addr(x) for x in range(5)}
+        air = [p for p in air if (p.is_ack and p.addr in lv_addrs) or (not p.is_ack and (N.parse_frame(p.payload) or {}).get("msg") != PRE_MSG)]
     obs["npkts"] = len(air)
     obs["acks"] = [(p.src.name, p.addr.hex()) for p in air if p.is_ack]
     obs["want_ack"] = [(p.src.name, p.addr.hex()) for p in air if not p.is_ack and p.want_ack]
@@ -197,6 +213,9 @@ def judge(case, obs, pid=PID):
     nfrag = (len(msg) + 23) // 24 if len(msg) > 24 else 1
     off = case["allow_off"]
     full_nodes = {k for k, op in [tuple(x) for x in case.get("pre", [])] if op.startswith("fill-queue")}
+    # a node that is inside its own send() when the multicast arrives may be transmitting at that instant (half duplex): it is
+    # excused from "received by all", never from the safety clauses (no ACK, nothing twice, nothing altered)
+    busy_nodes = {k for k, op in [tuple(x) for x in case.get("pre", [])] if op == "routed-ack-pending"}
     has_burst = any(op == "multicast-burst" for _, op in [tuple(x) for x in case.get("pre", [])])
     relays = [r for r in case["relays"] if 1 <= lv(r) <= 3 and r != off]
     exact = len(relays) <= 1  # with several relays re-broadcasts may collide: safety clauses only
@@ -231,13 +250,14 @@ def judge(case, obs, pid=PID):
             # (the sender is a node of level L or of another level like everybody else; whether a
             # sender of level L sees its own multicast is not specified and not judged)
             v.append(("%s/wrong-level:%s:got-L%d" % (pid, shape, lvl), "node %o (level %d) queued a multicast for level %d" % (key, lvl, L)))
-        if key in full_nodes:
-            continue  # its application queue was already full: nothing more can be queued there
+        if key in full_nodes or key in busy_nodes:
+            continue  # its application queue was already full: nothing more can be queued there / it may have been transmitting
         if key in direct and want not in q:
             # excused: RX FIFO overflow, collisions, and - for fragment bursts - a receiver that is
             # itself a relay (half duplex: it cannot hear fragment k+1 while re-broadcasting k)
             # (a level-4 node with multicast_relay on re-broadcasts as well - towards a level nobody is on - and is just as deaf meanwhile)
-            if obs["overflow"][key] == 0 and not (nfrag > 1 and (obs["ncoll"] > 0 or key in case["relays"])):
+            # (with the pending unicast of a busy node on the same channel, a collision excuses single frames too)
+            if obs["overflow"][key] == 0 and not (nfrag > 1 and (obs["ncoll"] > 0 or key in case["relays"])) and not (busy_nodes and obs["ncoll"] > 0):
                 v.append(("%s/missed:%s" % (pid, shape), "node %o of level %d did not receive the multicast (len %d)" % (key, L, len(msg))))
         if key in relayed and key not in direct and want not in q and clean and (nfrag == 1 or want in obs["queues"][relay_node]):
             v.append(("%s/relay-missed:%s" % (pid, shape), "node %o of level %d did not receive the multicast relayed by %o" % (key, lvl, relay_node)))
@@ -396,10 +416,11 @@ def build_items(tier, seed):
                     [(recv, "unicast-fail"), (recv, "unicast-ok")], [(src, "unicast-ok"), (recv, "rebegin"), (recv, "unicast-ok")],
                     [(src, "multicast-same-type")], [(src, "unicast-same-type:%d" % recv)], [(src, "multicast-same-type"), (src, "multicast-same-type")],
                     [(src, "multicast-burst")], [(recv, "fill-queue:6")], [(recv, "fill-queue:6"), (src, "multicast-burst")],
-                    [(recv, "unicast-routed-ack")], [(src, "unicast-routed-ack")], [(recv, "unicast-routed-ack"), (src, "unicast-ok")]]
+                    [(recv, "unicast-routed-ack")], [(src, "unicast-routed-ack")], [(recv, "unicast-routed-ack"), (src, "unicast-ok")],
+                    [(recv, "routed-ack-pending")]]
             for pre in pres:
                 for relays in ([], [recv] if relay_ok else None):
-                    if relays is None:
+                    if relays is None or (relays and any(x[1] == "routed-ack-pending" for x in pre)):
                         continue
                     k += 1
                     cases.append(dict(src=src, level=lvl, relays=list(relays), allow_off=None, mlen=(5, 25)[k % 2], mtype=TYPES[k % len(TYPES)],
